@@ -22,6 +22,46 @@ func (r *Rng) layoutAny() geom.Layout {
 }
 
 // genCoord: a coordinate of the given length, arbitrary bit patterns.
+// rejected: the error of a refused SetCoords — unless the receiver was left in a state that is not
+// well formed (stride = layout's, whole coordinates, end offsets aligned, ordered and finishing at
+// the end of the coordinates), which is reported as a different error.
+func rejected(err error, g geom.T) string {
+	st := g.Stride()
+	flat := g.FlatCoords()
+	bad := st != g.Layout().Stride() || (st > 0 && len(flat)%st != 0) || (st == 0 && len(flat) != 0)
+	checkEnds := func(ends []int, from int) int {
+		for _, e := range ends {
+			if e < from || (st > 0 && e%st != 0) || e > len(flat) {
+				bad = true
+			}
+			from = e
+		}
+		return from
+	}
+	switch g := g.(type) {
+	case *geom.Polygon, *geom.MultiLineString, *geom.MultiPoint:
+		ends := g.Ends()
+		if last := checkEnds(ends, 0); len(ends) > 0 && last != len(flat) {
+			bad = true
+		}
+		if len(ends) == 0 && len(flat) != 0 {
+			bad = true
+		}
+	case *geom.MultiPolygon:
+		last := 0
+		for _, ends := range g.Endss() {
+			last = checkEnds(ends, last)
+		}
+		if last != len(flat) {
+			bad = true
+		}
+	}
+	if bad {
+		return "(err other)"
+	}
+	return sxErr(err)
+}
+
 func (r *Rng) genCoord(n int) geom.Coord {
 	c := make(geom.Coord, n)
 	if r.chance(1, 12) {
@@ -375,14 +415,14 @@ func genC01(r *Rng, e *Emitter, n int) {
 				if kind == 1 {
 					g, err := ls0.SetCoords(cs)
 					if err != nil {
-						return sxErr(err)
+						return rejected(err, ls0)
 					}
 					rb := guard(func() string { return "(ok " + sxCoords1(g.Coords()) + ")" })
 					return "(ok (" + sxG1(g.Layout(), g.Stride(), g.FlatCoords(), g.SRID()) + " " + rb + "))"
 				}
 				g, err := lr0.SetCoords(cs)
 				if err != nil {
-					return sxErr(err)
+					return rejected(err, lr0)
 				}
 				rb := guard(func() string { return "(ok " + sxCoords1(g.Coords()) + ")" })
 				return "(ok (" + sxG1(g.Layout(), g.Stride(), g.FlatCoords(), g.SRID()) + " " + rb + "))"
@@ -412,7 +452,7 @@ func genC01(r *Rng, e *Emitter, n int) {
 				if kind == 3 {
 					g, err := pg0.SetCoords(cs)
 					if err != nil {
-						return sxErr(err)
+						return rejected(err, pg0)
 					}
 					kept = g
 					rb := guard(func() string { return "(ok " + sxCoords2(g.Coords()) + ")" })
@@ -420,7 +460,7 @@ func genC01(r *Rng, e *Emitter, n int) {
 				}
 				g, err := mls0.SetCoords(cs)
 				if err != nil {
-					return sxErr(err)
+					return rejected(err, mls0)
 				}
 				kept = g
 				rb := guard(func() string { return "(ok " + sxCoords2(g.Coords()) + ")" })
@@ -485,7 +525,7 @@ func genC01(r *Rng, e *Emitter, n int) {
 			e.emit("C01.set.mpoly", fmt.Sprintf("(%d %s)", int(l), sxCoords3(cs)), guard(func() string {
 				g, err := mp0.SetCoords(cs)
 				if err != nil {
-					return sxErr(err)
+					return rejected(err, mp0)
 				}
 				rb := guard(func() string { return "(ok " + sxCoords3(g.Coords()) + ")" })
 				return "(ok (" + sxG3(g.Layout(), g.Stride(), g.FlatCoords(), g.Endss(), g.SRID()) + " " + rb + "))"
